@@ -12,7 +12,7 @@ var dirs3 = []string{"restart", "stop", "resume"}
 // Generate draws a random scenario: an actor tree of 2..6 tokens (token 0 = root, spawned externally),
 // one role per token, and a list of external actions.
 // template scenarios aimed at situations that uniform generation reaches rarely
-const NTemplates = 13
+const NTemplates = 14
 
 func template(r *vh.RNG) *Scenario { return TemplateAt(r, r.Intn(NTemplates)) }
 
@@ -155,6 +155,22 @@ func TemplateAt(r *vh.RNG, k int) *Scenario {
 			{Rules: []Rule{{On: "P", N: 0, Inst: -1, Do: []Action{{K: []string{"panic", "report"}[r.Intn(2)]}}}, {On: "P", N: 1, Inst: -1, Do: []Action{{K: "tell", T: 0, N: 2}}}}},
 		}
 		scn.Exts = []Label{{K: "spawn", T: 0, R: 0}, tell(0, 0), tell(1, 1), tell(1, 0), tell(1, 1), tell(0, 1), tell(1, 0)}
+	case 12:
+		// a lifecycle handler that PANICS during a real termination (not a restart): OnTerminate, the actor's own OnTerminated
+		// (which runs after the status has become Terminated) or the notice of its child while it is terminating. The step must go
+		// on: the actor is unregistered, its watcher and its parent are notified, Shutdown returns
+		on := []string{"T", "TS", "TO"}[r.Intn(3)]
+		scn.Roles = []Role{
+			{Victim: "resume", Sup: []string{dirs3[r.Intn(3)]}, Rules: []Rule{{On: "L", N: -1, Inst: -1, Do: []Action{{K: "spawn", T: 1, R: 1}, {K: "spawn", T: 3, R: 3}}},
+				{On: "TO", N: 1, Inst: -1, Do: []Action{{K: "tell", T: 3, N: 2}}}}},
+			{Victim: "resume", Rules: []Rule{{On: "L", N: -1, Inst: -1, Do: []Action{{K: "spawn", T: 2, R: 2}}}, {On: on, N: -1, Inst: -1, Do: []Action{{K: "tell", T: 3, N: 3}, {K: "panic"}}}}},
+			{Victim: "resume"},
+			{Victim: "resume", Rules: []Rule{{On: "P", N: 0, Inst: -1, Do: []Action{{K: "watch", T: 1}}}, {On: "TO", N: 1, Inst: -1, Do: []Action{{K: "tell", T: 0, N: 1}}}}},
+		}
+		scn.Exts = []Label{{K: "spawn", T: 0, R: 0}, tell(3, 0), tell(1, 1), {K: "term", T: 1, G: r.Bool()}, tell(3, 1), tell(1, 1)}
+		if r.Bool() {
+			scn.Exts = scn.Exts[:3] // straight to Shutdown
+		}
 	default:
 		// watch requests racing with a termination: two observers, one of them the parent
 		scn.Roles = []Role{
